@@ -101,6 +101,8 @@ def scan_body(F, b):
             ak = t["ak"]
             if ak in ("misaligned", "nullptr"):
                 continue
+            if ak == "resumed":
+                continue      # polling a completed future again is a contract violation of the caller, independent of the input
             term = ",".join(b.oname(o, 3) for o in t["ops"])
             with b.alpha():
                 nterm = ",".join(b.oname(o, 3) for o in t["ops"])
